@@ -62,8 +62,10 @@ type simConn struct {
 
 var openConns atomic.Int64
 
-func (c *simConn) Prepare(string) (driver.Stmt, error) { return nil, errors.New("verifsim: no prepare") }
-func (c *simConn) Begin() (driver.Tx, error)           { return nil, errors.New("verifsim: no tx") }
+func (c *simConn) Prepare(string) (driver.Stmt, error) {
+	return nil, errors.New("verifsim: no prepare")
+}
+func (c *simConn) Begin() (driver.Tx, error) { return nil, errors.New("verifsim: no tx") }
 func (c *simConn) Close() error {
 	if !c.closed.Swap(true) {
 		openConns.Add(-1)
